@@ -772,6 +772,14 @@ class Interp:
             if name == "MatMult":
                 return self.ext.matmul(a, b, e, ms)
             return self.ext.elementwise(name, [a, b], e, ms)
+        from .extlib import MinMax, MinMaxScaled
+        if isinstance(a, (MinMax, MinMaxScaled)) or isinstance(b, (MinMax, MinMaxScaled)):
+            mm, other = (a, b) if isinstance(a, (MinMax, MinMaxScaled)) else (b, a)
+            if name == "Mult" and is_scalar(other):
+                if isinstance(mm, MinMaxScaled):
+                    return MinMaxScaled(mm.mm, mm.factor * to_pw(other))
+                return MinMaxScaled(mm, to_pw(other))
+            raise Unsupported("operator %s on a symbolic min/max at %s" % (name, self.where(e, ms)))
         if isinstance(a, Opaque) or isinstance(b, Opaque):
             if name == "BitOr":
                 return Opaque("generic", "union")
